@@ -1,7 +1,11 @@
 import Indi.Properties.C07
+import Indi.Properties.Dec.Driver
 import Indi.Properties.Dec.Vector
 import Indi.Properties.C07b
 #print axioms Indi.Dev.C07_response
 #print axioms Indi.Dev.C07_emitted_valid
 #print axioms Indi.Dev.flags_follow_history
 #print axioms Indi.Decisions.vectorEnabled_agrees
+#print axioms Indi.Decisions.toDefDeletes_agrees
+#print axioms Indi.Decisions.defMsg_deletes_from_source
+#print axioms Indi.Decisions.driverGetAll_agrees
